@@ -126,7 +126,7 @@ def run(ctx, res):
     counters = {}
     rng = ctx['rng']
     budget = 120 if ctx['tier'] == 'quick' else 1500
-    ngr = 60 if ctx['tier'] == 'quick' else 1500
+    ngr = 120 if ctx['tier'] == 'quick' else 1500
     items = []          # (text, probes, queries, wordbreaks, label)
     for text, probes, qs in witnesses():
         items.append((text, probes, qs, None, 'witness'))
